@@ -460,7 +460,7 @@ def rewrite_derive(attr_text):
 # directive parsing
 
 SECTION_KW = ("ret", "requires", "ensures", "decreases", "recommends", "entry", "loop", "before", "after",
-              "subst", "sigsubst", "attr", "name", "opens", "noprove", "unwind", "mono", "selftype", "ord", "header")
+              "subst", "sigsubst", "attr", "name", "opens", "noprove", "unwind", "mono", "selftype", "ord", "header", "nostructural")
 
 
 class FnDirective:
@@ -839,6 +839,8 @@ def emit_item(em, d):
     ord_text = None
     if it.kind in ("struct", "enum"):
         keep, have = rewrite_derive(attr_text)
+        if d.get("nostructural") and keep:
+            keep = [k for k in keep if k != "Structural"]
         if d.get("ord"):
             if not ("PartialOrd" in have and "Ord" in have):
                 raise ExtractError("E6: %s does not derive PartialOrd, Ord any more" % d.target)
